@@ -63,7 +63,7 @@ func (p *PluginState) Handler4(req, resp *dhcpv4.DHCPv4) (*dhcpv4.DHCPv4, bool) 
 		}
 		rec := Record{
 			IP:      ip.IP.To4(),
-			expires: int(timeNow().Add(p.LeaseTime).Unix()),
+			expires: int(time.Now().Add(p.LeaseTime).Unix()),
 			hostname: hostname,
 		}
 		err = p.saveIPAddress(req.ClientHWAddr, &rec)
@@ -75,8 +75,8 @@ func (p *PluginState) Handler4(req, resp *dhcpv4.DHCPv4) (*dhcpv4.DHCPv4, bool) 
 	} else {
 		// Ensure we extend the existing lease at least past when the one we're giving expires
 		expiry := time.Unix(int64(record.expires), 0)
-		if expiry.Before(timeNow().Add(p.LeaseTime)) {
-			record.expires = int(timeNow().Add(p.LeaseTime).Round(time.Second).Unix())
+		if expiry.Before(time.Now().Add(p.LeaseTime)) {
+			record.expires = int(time.Now().Add(p.LeaseTime).Round(time.Second).Unix())
 			record.hostname = hostname
 			err := p.saveIPAddress(req.ClientHWAddr, record)
 			if err != nil {
